@@ -1,5 +1,6 @@
 import SpecKitV.Lemmas.SchedLtf
 import SpecKitV.Lemmas.SchedNewVec
+import SpecKitV.Props.C03
 
 #print axioms ltfStep_rL
 #print axioms ltfStep_bin
@@ -19,3 +20,9 @@ import SpecKitV.Lemmas.SchedNewVec
 #print axioms SchedNV.vecWalk_stepping
 #print axioms SchedNV.vecGridPoint_props
 #print axioms SchedNV.searchLeft_spec
+#print axioms ltfPlan_grid
+#print axioms lpsdPlan_grid
+#print axioms lpsd_is_ltf
+#print axioms newPlan_grid
+#print axioms vecPlan_grid
+#print axioms vecPlan_increasing
